@@ -32,7 +32,14 @@ def oracle(g, start):
     for t in GM.reachable_terminals(g, start):
         if t not in joined:
             res.append(("terminal-not-used", "terminal / range end %r reachable from the start symbol occurs in no generated string" % t))
-            break
+            return res
+    # occurrence-wise: some generated string has a derivation that uses this very occurrence
+    short = [s for _, s in pairs if s is not None and len(s) <= 14]
+    if len(short) == len(pairs) and len(pairs) <= 40:
+        for occ in GM.occurrences(g, start)[:12]:
+            if not any(GM.derivable_using(g, start, s, occ) for s in short):
+                res.append(("occurrence-not-used", "the occurrence of terminal / range end %r at one place of the grammar is used by no derivation of any generated string" % occ[2]))
+                break
     return res
 
 
